@@ -216,6 +216,11 @@ impl<'a, H: HashChain> InMemoryHssPublicKey<'a, H> {
 
         let public_key = InMemoryLmsPublicKey::new(data.get(index..)?)?;
 
+        // RFC 8554, Algorithm 6: the public key must be exactly as long as its type codes say
+        if index + public_key.as_slice().len() != data.len() {
+            return None;
+        }
+
         Some(Self {
             public_key,
             level: level as usize,
